@@ -79,6 +79,19 @@ class RunBase:
         self.faults = Counter()
         self.state_hashes = set()
         self.sim_time = 0.0
+        self.soft_violations = []
+
+    def soft(self, signature, message, detail=None):
+        """A violation that does not stop the run: exploration continues (used for defects whose effect the
+        oracle can model, e.g. an open known finding) and the first one is reported when the run ends, unless a
+        hard violation comes first."""
+        if not any(s == signature for s, _, _ in self.soft_violations):
+            self.soft_violations.append((signature, message, detail))
+
+    def raise_soft(self):
+        if self.soft_violations:
+            s, m, d = self.soft_violations[0]
+            raise Violation(s, m, d)
 
     def enabled(self, op) -> bool:
         return True
@@ -253,6 +266,7 @@ def generate_and_run(prop: Property, seed: int) -> RunResult:
             log.append(seq, c.name, op, outcome)
             seq += 1
         run.finish()
+        run.raise_soft()
     except Violation as v:
         if cur is not None:
             log.append(cur[0], cur[1], cur[2], {"violation": v.signature})
@@ -284,6 +298,7 @@ def replay(prop: Property, universe: dict, cfg: dict, trace: list) -> RunResult:
             log.append(seq, e["c"], op, outcome)
             seq += 1
         run.finish()
+        run.raise_soft()
     except Violation as v:
         if cur is not None:
             log.append(cur[0], cur[1], cur[2], {"violation": v.signature})
